@@ -49,29 +49,29 @@ Proof.
 Qed.
 
 (* ------------------------------------------------------------------------------------------------ DDL *)
-Lemma ddl_res_form : forall la L mu eps tk f A g, 0 <= mu -> 0 <= eps -> 0 < tk ->
+Lemma ddl_res_form : forall la L mu eps tk f A g, 0 <= mu -> 0 <= eps -> 0 < tk -> A * g <> 0 ->
   evalR (env_of [la; L; mu; eps; tk; f; A; g]) ddl_res =
   sqrt (8000 * eps * eps0 * R_J * tk * mu) * sinh (la * L) - evalR (env_of [f; A; g]) edl_sigma.
 Proof.
-  intros la L mu eps tk f A g Hmu Heps Htk.
+  intros la L mu eps tk f A g Hmu Heps Htk Hag.
   assert (H0 : 0 <= 8000 * eps * eps0 * R_J * tk) by (unfold eps0, R_J; nra).
   rewrite (sqrt_mult _ _ H0 Hmu).
   unfold ddl_res, edl_sigma. unfold_evalR.
   try norm_arg sqrt (8000 * eps * eps0 * R_J * tk).
   try norm_arg sinh (la * L).
-  unfold Rdiv. ring.
+  fld Hag.
 Qed.
 
 (* residual = 0  <->  sigma = sqrt(8000 eps eps0 R T I) sinh(F psi / 2RT), with psi and sigma the values that
    EDL("psi") and EDL("sigma") report (regenerated read-out expressions), L = ln 10 *)
-Theorem ddl_residual_is_gouy_chapman : forall la mu eps tk f A g, 0 <= mu -> 0 <= eps -> 0 < tk ->
+Theorem ddl_residual_is_gouy_chapman : forall la mu eps tk f A g, 0 <= mu -> 0 <= eps -> 0 < tk -> A * g <> 0 ->
   let L := ln 10 in
   let psi := evalR (env_of [la; L; tk]) edl_psi in
   let sigma := evalR (env_of [f; A; g]) edl_sigma in
   evalR (env_of [la; L; mu; eps; tk; f; A; g]) ddl_res = 0 <-> sigma = gouy_chapman eps tk mu psi.
 Proof.
-  intros la mu eps tk f A g Hmu Heps Htk L psi sigma.
-  rewrite (ddl_res_form la L mu eps tk f A g Hmu Heps Htk). fold sigma.
+  intros la mu eps tk f A g Hmu Heps Htk Hag L psi sigma.
+  rewrite (ddl_res_form la L mu eps tk f A g Hmu Heps Htk Hag). fold sigma.
   unfold gouy_chapman, psi. rewrite edl_psi_form.
   replace (F_C * (2 * R_J * tk * L * la / F_C) / (2 * R_J * tk)) with (la * L)
     by (unfold F_C, R_J; field; lra).
@@ -84,15 +84,15 @@ Lemma ddl_res_dl_form : forall f, evalR (env_of [f]) ddl_res_dl = - f /\ evalR (
 Proof. intros. repeat split; unfold ddl_res_dl, ccm_res_dl, ddl_res_nograms; unfold_evalR; lra. Qed.
 
 (* ------------------------------------------------------------------------------------------------ CCM *)
-Theorem ccm_residual_is_C_psi : forall la tk C f A g,
+Theorem ccm_residual_is_C_psi : forall la tk C f A g, A * g <> 0 ->
   let L := ln 10 in
   let psi := evalR (env_of [la; L; tk]) edl_psi in
   let sigma := evalR (env_of [f; A; g]) edl_sigma in
   evalR (env_of [la; L; tk; C; f; A; g]) ccm_res = 0 <-> sigma = ccm_sigma C psi.
 Proof.
-  intros la tk C f A g L psi sigma.
+  intros la tk C f A g Hag L psi sigma.
   assert (E : evalR (env_of [la; L; tk; C; f; A; g]) ccm_res = C * psi - sigma).
-  { unfold psi, sigma, ccm_res, edl_psi, edl_sigma. unfold_evalR. unfold Rdiv. ring. }
+  { unfold psi, sigma, ccm_res, edl_psi, edl_sigma. unfold_evalR. fld Hag. }
   rewrite E. unfold ccm_sigma. split; intro H; lra.
 Qed.
 
@@ -107,7 +107,7 @@ Theorem cd_music_plane_relations : forall s0 s1 C1 C2 psi0 psi1 psi2,
   (evalR (env_of [s0; C1; psi0; psi1]) cd_res0 = 0 <-> s0 = cd_plane0 C1 psi0 psi1) /\
   (evalR (env_of [s0; s1; C2; psi1; psi2]) cd_res1 = 0 <-> s0 + s1 = cd_plane1 C2 psi1 psi2).
 Proof.
-  intros. unfold cd_res0, cd_res1, cd_plane0, cd_plane1. unfold_evalR. split; split; intro H; lra.
+  intros. unfold cd_res0, cd_res1, cd_plane0, cd_plane1. unfold_evalR. split; split; intro H; nra.
 Qed.
 
 (* plane 2 with explicit diffuse layer: residual = 0 <-> f (charge of plane 2 + diffuse layer, mol) cancels planes 0 and 1 *)
